@@ -4,6 +4,7 @@
 // answer per line:   <noenum> <enum>
 //   each of which is  EXC:<exception class>                       the loader rejected the file with an exception
 //                     SIG:<n>                                     the loader died (signal)
+//                     HANG:<n>                                    the loader used 10 s of CPU time (or 300 s) without finishing
 //                     OK:<digest of all query answers>[:<digest of the enumerated vocabulary>:<number of words>]
 // The load goes through lm::ngram::LoadVirtual (which recognises all binary model types), once without and once
 // with Config::enumerate_vocab; every case runs in a forked child.
@@ -22,7 +23,9 @@
 #include <typeinfo>
 #include <vector>
 
+#include <signal.h>
 #include <stdint.h>
+#include <sys/resource.h>
 #include <sys/wait.h>
 #include <unistd.h>
 
@@ -90,6 +93,11 @@ std::string InChild(const char *path, bool enumerate) {
   pid_t pid = fork();
   if (pid == 0) {
     close(fds[0]);
+    // a loader that neither throws nor returns is a verdict too: 10 s of CPU time (independent of how busy the machine is) for a
+    // spinning one, 300 s of wall time as a back-stop for a blocked one
+    struct rlimit lim = {10, 12};
+    setrlimit(RLIMIT_CPU, &lim);
+    alarm(300);
     std::string r = Attempt(path, enumerate);
     if (write(fds[1], r.data(), r.size()) < 0) _exit(2);
     _exit(0);
@@ -104,7 +112,8 @@ std::string InChild(const char *path, bool enumerate) {
   waitpid(pid, &status, 0);
   if (WIFSIGNALED(status)) {
     std::ostringstream s;
-    s << "SIG:" << WTERMSIG(status);
+    if (WTERMSIG(status) == SIGXCPU || WTERMSIG(status) == SIGALRM || WTERMSIG(status) == SIGKILL) s << "HANG:" << WTERMSIG(status);
+    else s << "SIG:" << WTERMSIG(status);
     return s.str();
   }
   if (got.empty()) return "EXIT:nonzero";
